@@ -188,6 +188,8 @@ func (r *reader) readint64(tag byte) (int64, error) {
 func (r *reader) readFloat32(tag byte) (float32, error) {
 	if b, err := r.readBytes(tag); err != nil {
 		return 0, err
+	} else if len(b) < 4 {
+		return 0, io.ErrUnexpectedEOF
 	} else {
 		bits := binary.LittleEndian.Uint32(b)
 		return math.Float32frombits(bits), nil
